@@ -1,5 +1,61 @@
-import ErdosVerif.Model.Sim
+import ErdosVerif.Lemmas.SimInv
+import ErdosVerif.Lemmas.LedgerCopy
+/-!
+# C01 — no worker is ever oversubscribed during a simulation
+
+Model: `Model/Sim.lean` (the whole simulator loop; the scheduler is a decision
+tape, so "every policy and flag combination" is the universal quantifier over the
+tape) on top of the ledger model `Model/Ledger.lean`.
+-/
 namespace ErdosVerif.C01
-open ErdosVerif.Model
-theorem placeholder : ET.taskFinished = 3 := rfl
+open ErdosVerif.Model ErdosVerif.Model.Sim
+
+/-- The initial state of any world whose workers' resource vectors have no duplicate
+key (a Python dict cannot have one) satisfies the invariant. -/
+theorem initial_state_ok (s0 : SimS) (vs : Array (List Vec))
+    (hp : s0.pools = vs.map (fun ws => (⟨ws.map Worker.ofVec, []⟩ : Pool)))
+    (hnd : ∀ ws ∈ vs.toList, ∀ v ∈ ws, (AList.keys v).Nodup) (hl : s0.log = #[]) (hn : s0.now = 0) :
+    Inv s0 := by
+  apply inv_initial s0 _ hl hn
+  intro p hpm
+  rw [hp] at hpm
+  simp only [Array.toList_map, List.mem_map] at hpm
+  obtain ⟨ws, hws, rfl⟩ := hpm
+  intro w hw
+  simp only [List.mem_map] at hw
+  obtain ⟨v, hv, rfl⟩ := hw
+  exact Resources.inv_ofVec v (hnd ws hws v hv)
+
+/-- **At every instant of every run** (after the constructor and any number of loop
+iterations, normal or aborted), for every pool, worker and exact resource key:
+available + allocated = total. -/
+theorem ledger_conserved (s0 : SimS) (fuel : Nat) (h : Inv s0) :
+    ∀ p ∈ (simulate s0 fuel).2.pools.toList, ∀ w ∈ p.workers, ∀ k : Res,
+      getQ w.res.avail k + allocAt w.res.allocs k = getQ w.res.total k :=
+  fun p hp w hw k => ((simulate_inv s0 fuel h).1 p hp w hw).conserve k
+
+/-- **No worker is ever oversubscribed**: at every instant, for every worker and every
+resource type, what the ledger holds for the resident tasks, batches and profiles does
+not exceed the configured capacity (and availability + held = capacity). -/
+theorem never_oversubscribed (s0 : SimS) (fuel : Nat) (h : Inv s0) :
+    ∀ p ∈ (simulate s0 fuel).2.pools.toList, ∀ w ∈ p.workers, ∀ n : String,
+      allocByName w.res.allocs n ≤ byName w.res.total n ∧
+      byName w.res.avail n + allocByName w.res.allocs n = byName w.res.total n := by
+  intro p hp w hw n
+  have := Resources.conserve_byName w.res ((simulate_inv s0 fuel h).1 p hp w hw) n
+  exact ⟨by omega, this⟩
+
+/-- Whenever a worker's ledger is empty it is back at full capacity (C04's
+`sim_idle_full` at every instant of every run). -/
+theorem idle_worker_full (s0 : SimS) (fuel : Nat) (h : Inv s0) :
+    ∀ p ∈ (simulate s0 fuel).2.pools.toList, ∀ w ∈ p.workers, w.res.allocs = [] → w.res.avail = w.res.total :=
+  fun p hp w hw he => Resources.empty_full w.res ((simulate_inv s0 fuel h).1 p hp w hw) he
+
+/-- What a successful placement charges: exactly the requested quantity of each
+requested key's type (links the ledger to the strategy's demand for one request key). -/
+theorem placement_charges_demand (r : Resources) (k : Res) (c : Comp) (q : Nat) (n : String)
+    (hok : (r.allocate k c q).2 = .ok) :
+    allocByName (r.allocate k c q).1.allocs n = allocByName r.allocs n + (if k.name = n then q else 0) :=
+  Resources.allocate_allocByName r k c q n hok
+
 end ErdosVerif.C01
